@@ -6,11 +6,15 @@ PROP = dict(
     assumptions=[],
     jobs=dict(
         quick=[
-            job("invoices", "^TestVerifC15Registry$", ["TestVerifC15Registry"], 400, shards=8),
+            job("invoices", "^TestVerifC15ReplayPrecheck$", ["TestVerifC15ReplayPrecheck"], 1, shards=1, allow_short=True),
+            job("invoices", "^TestVerifC15Registry$", ["TestVerifC15Registry"], 300, shards=8),
         ],
         thorough=[
-            job("invoices", "^TestVerifC15Registry$", ["TestVerifC15Registry"], 3000, shards=12, timeout=900),
-            job("invoices", "^TestVerifC15Concurrent$", ["TestVerifC15Concurrent"], 600, shards=4, timeout=900, race=True),
+            job("invoices", "^TestVerifC15ReplayPrecheck$", ["TestVerifC15ReplayPrecheck"], 1, shards=1, allow_short=True),
+            job("invoices", "^TestVerifC15Registry$", ["TestVerifC15Registry"], 1500, shards=12, timeout=1200,
+                env=dict(VERIF_C15_STEPS=60)),
+            job("invoices", "^TestVerifC15Concurrent$", ["TestVerifC15Concurrent"], 400, shards=4, timeout=1200,
+                race=True),
         ],
     ),
 )
